@@ -150,13 +150,51 @@ def run(ctx):
             violations.append({"what": what, "classification": {"kind": kind}, "replay": {"kind": "history", "scenario": lines}})
         if len(samples) < 4 and evicted:
             samples.append({"case": desc, "first_ops": [l for l in lines if l.startswith("op ")][:6]})
+    # re-publication histories: the path handed to set / put is a hard link to a file that is
+    # already cached (an application linked a blob out of the cache and publishes it again)
+    rep = []
+    for w, rd in ((("plain", 300), ()), (("sharded", 4, 1200), ()), (("plain", 300), (("plain",),))):
+        for first in ("set", "put"):
+            for again in ("set_path", "put_path"):
+                for samekey in (True, False):
+                    K1 = ("kk", 7, 9)
+                    K2 = K1 if samekey else ("other", 3, 4)
+                    L = G.header(w, rd, "none") + [G.NOFIRE, G.op(0, first, K1, "VALUE1", 1), "snap",
+                                                   "hardlink %s stage/alias" % G.key_path(w, "w", K1),
+                                                   G.NOFIRE, G.op(0, again, K2, "stage/alias"), "snap",
+                                                   G.NOFIRE, G.op(0, "get", K1), G.NOFIRE, G.op(0, "get", K2), "snap"]
+                    rep.append(({"republish": again, "first": first, "same_key": samekey, "front": w[0], "stacked": bool(rd)}, L))
+    rres = S.run_many(rep, timeout=120)
+    for desc, lines, impl, model, diffs in rres:
+        if diffs:
+            ties.append({"what": "model and implementation disagree on a re-publication history", "case": str(desc), "detail": diffs[:4], "scenario": lines})
+        else:
+            agree += 1
+        if impl is None:
+            continue
+        steps += len(impl.results)
+        nontriv += 1
+        r2 = impl.results.get(2)
+        if r2:
+            cls, d = S.fields(r2[1])
+            if cls == "OkUnit" and d.get("src_left") != "0":
+                violations.append({"what": "%s of a path hard-linked to a cached file succeeded but its source file still exists" % desc["republish"],
+                                   "classification": {"kind": "source-left", "how": "hard-link-to-cached"}, "replay": {"kind": "history", "scenario": lines}})
+            if cls.startswith("Err") or cls == "Panic":
+                violations.append({"what": "%s of a path hard-linked to a cached file failed: %s" % (desc["republish"], cls),
+                                   "classification": {"kind": "republish-error"}, "replay": {"kind": "history", "scenario": lines}})
+        for st in (3, 4):
+            r = impl.results.get(st)
+            if r and not r[1].startswith("OkSome content=VALUE1"):
+                violations.append({"what": "after re-publishing a cached blob, get returns %s instead of the value" % r[1][:40],
+                                   "classification": {"kind": "wrong-value", "how": "hard-link-to-cached"}, "replay": {"kind": "history", "scenario": lines}})
     seen, uniq = set(), []
     for v in violations:
         k = tuple(sorted(v["classification"].items()))
         if k not in seen:
             seen.add(k); uniq.append(v)
-    cov = {"evaluations": len(res), "distinct_nontrivial": nontriv, "steps": steps,
-           "rule": "random histories (%s operations) of get/touch/set/put/set_temp_file/put_temp_file/ensure/get_or_update over 4-8 keys with clustered, identical and spread hashes, through plain, sharded (2/3/4/8 shards) and stacked caches with capacities from 'maintain on every write' to 'never', 1-3 independent handles, scripted trigger and shard draws; after EVERY step the result and a full snapshot are compared with the model, and a key-value-map oracle is applied to the implementation's own observations (latest set / first put, no vanishing on reads, single copy, source consumed). Non-trivial = an eviction happened or more than one handle." % ("20-60" if ctx.quick() else "40-200"),
+    cov = {"evaluations": len(res) + len(rres), "distinct_nontrivial": nontriv, "steps": steps, "republication_histories": len(rres),
+           "rule": "random histories (%s operations) of get/touch/set/put/set_temp_file/put_temp_file/ensure/get_or_update over 4-8 keys with clustered, identical and spread hashes, through plain, sharded (2/3/4/8 shards) and stacked caches with capacities from 'maintain on every write' to 'never', 1-3 independent handles, scripted trigger and shard draws; after EVERY step the result and a full snapshot are compared with the model, and a key-value-map oracle is applied to the implementation's own observations (latest set / first put, no vanishing on reads, single copy, source consumed). In addition re-publication histories: the path given to set / put is a hard link to an already cached file (same or other key): the call must succeed, consume the path, and lookups return the value. Non-trivial = an eviction happened, more than one handle, or a re-publication." % ("20-60" if ctx.quick() else "40-200"),
            "samples": samples, "traces_validated_against_impl": agree}
     if not ctx.quick():
         rc, o = C.coqchk(PROPS)
